@@ -4,6 +4,7 @@
 # evidence file of the property. usage: fuzz_stage.sh <ID> <quick|thorough>
 # exit 0 = nothing found, 1 = violation (VIOLATION line printed), 2 = harness failure
 set -u
+unset CARGO_TARGET_DIR
 ROOT="$(cd "$(dirname "${BASH_SOURCE[0]}")" && pwd)"
 ID="$1"; TIER="$2"
 SEED=$(( ${VERIF_SEED:-0} + 1 ))   # libFuzzer: 0 means "random"
